@@ -840,7 +840,8 @@ def renderFoot (k : ColorCtx) (d : Doc) (f : Foot) (override : Option String) : 
     | none => throw "TypeError"
     | some w =>
       if Widths.sumQ w = 0 && !w.isEmpty then throw "ZeroDivisionError"
-      encodeRows k A (Widths.colWidths w d.page.colWidth) 0 [[some text]]
+      -- one cell spanning the table: it ends at the last boundary (repo fix; formerly at the first)
+      encodeRows k A ((Widths.colWidths w d.page.colWidth).getLast?.toList) 0 [[some text]]
 
 /-! ## one page: `PageRenderer.render` driven by the role-level layout -/
 
